@@ -55,21 +55,32 @@ def CpRes (ks1 : List Checkpoint) (w1' : World) (ks2 : List Snap) (w2' : World) 
 
 theorem strict_create {w : World} {caller a : Addr} {hs : Bool} {v spec : Nat} {x}
     (hl : journalOpsStrict.createCheckpoint w caller a hs v spec = .ok x) :
-    (∀ acc, w.js.state a = some acc → acc.created = false) ∧ journalOps.createCheckpoint w caller a hs v spec = .ok x := by
+    (∀ acc, w.js.state a = some acc →
+      acc.created = false ∨ (acc.info.codeHash ≠ Journal.KECCAK_EMPTY ∨ acc.info.nonce ≠ 0 ∨ hs = true)) ∧
+    journalOps.createCheckpoint w caller a hs v spec = .ok x := by
   change (match w.js.state a with
-    | some acc => if acc.created then Except.error (Err.panic _) else journalOps.createCheckpoint w caller a hs v spec
+    | some acc =>
+      if acc.created ∧ ¬ (acc.info.codeHash ≠ Journal.KECCAK_EMPTY ∨ acc.info.nonce ≠ 0 ∨ hs = true) then
+        Except.error (Err.panic _)
+      else journalOps.createCheckpoint w caller a hs v spec
     | none => journalOps.createCheckpoint w caller a hs v spec) = .ok x at hl
   cases hs' : w.js.state a with
   | none => rw [hs'] at hl; exact ⟨fun _ h => (nomatch h), hl⟩
   | some acc =>
     rw [hs'] at hl
     simp only at hl
-    by_cases hc : acc.created = true
+    by_cases hc : acc.created = true ∧ ¬ (acc.info.codeHash ≠ Journal.KECCAK_EMPTY ∨ acc.info.nonce ≠ 0 ∨ hs = true)
     · rw [if_pos hc] at hl; cases hl
     · rw [if_neg hc] at hl
       refine ⟨fun acc' h => ?_, hl⟩
       cases h
-      cases hcc : acc.created <;> simp_all
+      by_cases hcc : acc.created = true
+      · right
+        exact Classical.byContradiction fun hn => hc ⟨hcc, hn⟩
+      · left
+        cases hb : acc.created
+        · rfl
+        · exact absurd hb hcc
 
 /-- `create_account_checkpoint` of the (strict) journal machine vs the snapshot machine -/
 theorem createCheckpoint_rel (h : CfgRel ks1 w1 ks2 w2) {caller a : Addr} {v spec : Nat}
@@ -81,7 +92,7 @@ theorem createCheckpoint_rel (h : CfgRel ks1 w1 ks2 w2) {caller a : Addr} {v spe
   obtain ⟨hcr, hl⟩ := strict_create hl
   have hhs1 : w1.hasStorage a = hsPre w1.pre a := hasStorage_eq w1 h.w.hs1 a
   have hhs2 : w2.hasStorage a = hsPre w1.pre a := by rw [hasStorage_eq w2 h.w.hs2 a, h.w.pre]
-  rw [hhs1] at hl
+  rw [hhs1] at hl hcr
   rw [hhs2]
   change (do
     let (js, r) ← ofOpt "create_account_checkpoint" (Journal.createAccountCheckpoint w1.js caller a (hsPre w1.pre a) v spec)
@@ -101,6 +112,29 @@ theorem createCheckpoint_rel (h : CfgRel ks1 w1 ks2 w2) {caller a : Addr} {v spe
     have g := h.good
     have hz : hsPre w1.pre a = false → ∀ k, (dbPre w1.pre).storage a k = 0 := fun hh => hdb a hh
     obtain ⟨s', r', hs', hres⟩ := create_rel h.w.rel hcr hz h3 hj
+    show ∃ w2' r', (do
+      let saved := w2.js
+      let (js, r) ← ofOpt "create_account_checkpoint" (Journal.createAccountCheckpoint w2.js caller a (hsPre w1.pre a) v spec)
+      match r with
+      | .ok _ => pure ({ w2 with js := js }, Except.ok (⟨saved⟩ : Snap))
+      | .error e => pure ({ w2 with js := saved }, Except.error e) : R _) = .ok (w2', r') ∧ _
+    simp only [bind, Except.bind, hs', ofOpt_some]
+    -- a collision leaves the journal state as it was: no history step, no admissibility condition
+    by_cases hcoll : ∃ x, w1.js.state a = some x ∧
+        (x.info.codeHash ≠ Journal.KECCAK_EMPTY ∨ x.info.nonce ≠ 0 ∨ hsPre w1.pre a = true)
+    · obtain ⟨x, hx, hc⟩ := hcoll
+      obtain ⟨hr0, hjj⟩ := create_collision hx hc hj
+      subst hr0
+      cases r' with
+      | ok _ => exact hres.elim
+      | error e' =>
+        obtain ⟨he, hrel⟩ := hres
+        subst he
+        refine ⟨_, _, rfl, rfl, ?_⟩
+        rw [hjj] at hrel ⊢
+        exact h.step (Upd.js w1 w1.js) (Upd.js w2 w2.js) hrel (Fwd.refl _ _ g) (Dom.refl _) (fun b => rfl)
+    have hcr : ∀ x, w1.js.state a = some x → x.created = false := fun x hx =>
+      (hcr x hx).resolve_right (fun hc => hcoll ⟨x, hx, hc⟩)
     have hadm : ∀ base cps, admissible (dbPre w1.pre) (hsPre w1.pre) base ⟨w1.js, cps⟩
         (.create caller a (hsPre w1.pre a) v spec) = true := by
       intro base cps
@@ -116,13 +150,6 @@ theorem createCheckpoint_rel (h : CfgRel ks1 w1 ks2 w2) {caller a : Addr} {v spe
     have hpush := create_pushes (hasStorage := hsPre w1.pre) hdb (balOk_of hbal g.bal) hcr
       (by cases hh : hsPre w1.pre a; exact .inr rfl; exact .inl rfl) hfund hj
     have hdep := createAccountCheckpoint_depth hj
-    show ∃ w2' r', (do
-      let saved := w2.js
-      let (js, r) ← ofOpt "create_account_checkpoint" (Journal.createAccountCheckpoint w2.js caller a (hsPre w1.pre a) v spec)
-      match r with
-      | .ok _ => pure ({ w2 with js := js }, Except.ok (⟨saved⟩ : Snap))
-      | .error e => pure ({ w2 with js := saved }, Except.error e) : R _) = .ok (w2', r') ∧ _
-    simp only [bind, Except.bind, hs', ofOpt_some]
     cases r0 with
     | error e =>
       cases r' with
